@@ -64,6 +64,7 @@ Section RnodeInd.
   Hypothesis HS : forall uid key inf stages, Forall (Forall P) stages -> P (RSub uid key inf stages).
   Hypothesis HT : forall uid key inf calls, P (RTools uid key inf calls).
   Hypothesis HStop : forall armed, P (RStop armed).
+  Hypothesis HFault : forall delay, P (RFault delay).
 
   Fixpoint rnode_ind' (n : rnode) : P n :=
     match n with
@@ -86,6 +87,7 @@ Section RnodeInd.
                end) stages)
     | RTools uid key inf calls => HT uid key inf calls
     | RStop armed => HStop armed
+    | RFault delay => HFault delay
     end.
 End RnodeInd.
 
@@ -104,7 +106,7 @@ Proof. induction l as [|a l IH]; simpl; auto. now rewrite IH. Qed.
 
 Lemma proj_uids n : subseq (flat_map uids (proj n)) (ruids n).
 Proof.
-  induction n as [uid key inf natives fails intr|uid key|uid key sh|uid key inf stages IH|uid key inf calls|armed]
+  induction n as [uid key inf natives fails intr|uid key|uid key sh|uid key inf stages IH|uid key inf calls|armed|delay]
     using rnode_ind'; simpl.
   - apply subseq_refl.
   - apply subseq_refl.
@@ -116,6 +118,7 @@ Proof.
   - rewrite app_nil_r. apply ss_keep. rewrite map_map.
     erewrite map_ext; [apply subseq_refl|]. intros c. apply proj_call_uid.
   - destruct armed; apply ss_nil.
+  - destruct delay; apply ss_nil.
 Qed.
 
 Lemma proj_stages_uids plan : subseq (stages_uids (proj_stages plan)) (rstages_uids plan).
@@ -131,7 +134,7 @@ Proof. apply NoDup_subseq. apply ss_keep. apply proj_stages_uids. Qed.
 (* ---------------------------------------------------------------- unit names of the resumed plan *)
 
 Lemma done_of_uids n : subseq (ruids (done_of n)) (ruids n).
-Proof. destruct n; simpl; try (apply ss_keep; apply subseq_nil_l). apply ss_nil. Qed.
+Proof. destruct n; simpl; try (apply ss_keep; apply subseq_nil_l); apply ss_nil. Qed.
 
 Lemma done_of_intr n : node_intr (done_of n) <= node_intr n.
 Proof. destruct n; simpl; lia. Qed.
@@ -158,7 +161,7 @@ Qed.
 
 Lemma resume_node_uids n : forall opts, subseq (ruids (resume_node opts n)) (ruids n).
 Proof.
-  induction n as [uid key inf natives fails intr|uid key|uid key sh|uid key inf stages IH|uid key inf calls|armed]
+  induction n as [uid key inf natives fails intr|uid key|uid key sh|uid key inf stages IH|uid key inf calls|armed|delay]
     using rnode_ind'; intros opts; simpl; try apply subseq_refl.
   - apply ss_keep.
     set (F := fun m => node_outcome (sub_opts key opts) m).
@@ -276,7 +279,7 @@ Qed.
 
 Lemma resume_node_le n : forall opts, node_intr (resume_node opts n) <= node_intr n.
 Proof.
-  induction n as [uid key inf natives fails intr|uid key|uid key sh|uid key inf stages IH|uid key inf calls|armed]
+  induction n as [uid key inf natives fails intr|uid key|uid key sh|uid key inf stages IH|uid key inf calls|armed|delay]
     using rnode_ind'; intros opts; simpl; try lia.
   - (* sub: every node of the walk is replaced by something not larger *)
     set (F := fun m => node_outcome (sub_opts key opts) m).
@@ -305,7 +308,7 @@ Qed.
 
 Lemma resume_node_lt n : forall opts, node_outcome opts n = OutIntr -> node_intr (resume_node opts n) < node_intr n.
 Proof.
-  induction n as [uid key inf natives fails intr|uid key|uid key sh|uid key inf stages IH|uid key inf calls|armed]
+  induction n as [uid key inf natives fails intr|uid key|uid key sh|uid key inf stages IH|uid key inf calls|armed|delay]
     using rnode_ind'; intros opts; simpl; try discriminate.
   - destruct intr; [destruct fails; discriminate|]. simpl. lia.
   - destruct (negb _); [discriminate|]. intros Ho.
@@ -326,6 +329,7 @@ Proof.
     + intros c' _. destruct c' as [[[[cu cinf] natives] fails] intr]. simpl. lia.
     + exists c. split; auto. destruct c as [[[[cu cinf] natives] fails] intr]. simpl in *. lia.
   - destruct armed; [discriminate|]. simpl. lia.
+  - destruct delay; discriminate.
 Qed.
 
 Lemma resume_stages_decreases opts plan :
